@@ -61,7 +61,7 @@ def graph_space(tier, n, lo, hi, op):
     for mask in range(lo, hi):
         deps = deps_of(n, mask)
         ms = None if n < NMAX[tier] else 1
-        alphabet = "tdalnu" if op == "cull" else "tdaln"
+        alphabet = "tdalnum" if op == "cull" else "tdalnm"
         for kinds in kind_assignments_u(deps, alphabet, ms):
             plain = all(c in "td" for c in kinds)
             yield mask, kinds, "str"
@@ -73,7 +73,7 @@ def graph_space(tier, n, lo, hi, op):
 def kind_assignments_u(deps, alphabet, max_special):
     opts = []
     for d in deps:
-        base = "td" if not d else ("talnu" if len(d) == 1 else "tlnu")
+        base = "td" if not d else ("talnum" if len(d) == 1 else "tlnum")
         opts.append([c for c in base if c in alphabet])
     for ks in itertools.product(*opts):
         if max_special is not None and sum(1 for c in ks if c not in "td") > max_special:
@@ -98,7 +98,7 @@ def cases_of(shard, tier):
                     for ic in (True, False):
                         yield base + ((ik, ic),)
             elif op == "inline_functions":
-                fn_nodes = [i for i in range(n) if kinds[i] in "tn"]
+                fn_nodes = [i for i in range(n) if kinds[i] in "tnm"]
                 for ff in subsets(fn_nodes):
                     yield base + ((ff, True),)
                 if fn_nodes:
@@ -136,6 +136,8 @@ def same(a, b):
         return False
     if isinstance(a, (list, tuple)):
         return len(a) == len(b) and all(same(x, y) for x, y in zip(a, b))
+    if isinstance(a, dict):
+        return a.keys() == b.keys() and all(same(a[k], b[k]) for k in a)
     return a == b
 
 
@@ -143,6 +145,8 @@ def known_class(case):
     op, n, mask, kinds = case[0], case[1], case[2], case[3]
     if "u" in kinds:
         return "u"
+    if "m" in kinds:
+        return "dict-arg"
     return None
 
 
